@@ -196,7 +196,7 @@ func le(x uint64, n int) []int {
 func c04Run(tr *tracer, sc *c04Scenario, rid int, build string, r *rng) {
 	n := sc.Len
 	w := 0
-	var vals [][]int             // the input, one byte sequence per value
+	var vals [][]int // the input, one byte sequence per value
 	var encode func(dst []byte) ([]byte, error)
 	var decodeSame func(variant int, src []byte) bool // library decode == input, with destination variant
 	dirty := func(n int) []byte {
